@@ -11,7 +11,7 @@ RULE = ('vector pairs y != y_hat (the existing tests only compare a vector with 
         'for RMSLE are supplied from np.log. Bit-wise predicates on the REAL code: symmetry, non-negativity, zero at y = y_hat, smape <= 2, R2 <= 1, '
         'wrappers == metrics(y, m*x+b), endpoint fit through first/last point, best-fit R2 == squared Pearson correlation. '
         'non-trivial = y != y_hat and length >= 2; (metric, y, y_hat) new')
-ASSUMPTIONS = ['y, y_hat >= 0 where logarithms or ratios require it; finite entries; length >= 3 for adjusted R2']
+ASSUMPTIONS = ['y, y_hat >= 0 where logarithms or one-sided ratios require it (RMSLE, RMSPE, RPD); residuals, RMSE, SMAPE and R2 are also run on signed vectors; finite entries; length >= 3 for adjusted R2']
 
 
 def close(f, q, scale):
@@ -32,6 +32,42 @@ def vec(rng, n, kind):
             if rng.random() < 0.4:
                 v[i] = 0.0
     return np.array(v, dtype=float)
+
+
+@core.safe_case
+def one_signed(ctx, y, yh, family):
+    """vectors with NEGATIVE entries: residuals, RMSE, SMAPE (|y| + |y_hat| in the denominator) and R2 are defined for all reals
+    (only logarithms and the one-sided ratios of RMSPE / RPD need y, y_hat >= 0)."""
+    import kneeliverse.metrics as M
+    n = len(y)
+    d = ctx.get_driver()
+    case = dict(y=y.tolist(), y_hat=yh.tolist(), x=list(range(n)), signed=True)
+    ys, yhs = core.rats(y), core.rats(yh)
+    checks = [('rss', float(M.residuals(y, yh)), 'metrics.residuals', 1), ('mse', float(M.rmse(y, yh)) ** 2, 'metrics.rmse', 1),
+              ('smape', float(M.smape(y, yh)), 'metrics.smape', 1), ('r2', float(M.r2(y, yh)), 'metrics.r2', None)]
+    if n >= 3:
+        checks.append(('r2adj', float(M.r2(y, yh, M.R2.adjusted)), 'metrics.r2[adjusted]', None))
+    for name, fval, site, sc in checks:
+        q = F(d.call('metric', [name, ys, yhs])[0])
+        ctx.corr_checked += 1
+        scale = abs(q) + 2 if sc is None else sc
+        if not close(fval, q, scale):
+            ctx.fail('predicate', f'{name}-equals-its-definition(to within rounding)', site, case, dict(impl=fval, model=str(q), model_float=float(q)))
+    for nm, f in (('rmse', M.rmse), ('smape', M.smape), ('residuals', M.residuals)):
+        a, b = float(f(y, yh)), float(f(yh, y))
+        if a != b:
+            ctx.fail('predicate', f'{nm}-symmetric', f'metrics.{nm}', case, dict(a=a, b=b))
+        if not (a >= 0):
+            ctx.fail('predicate', f'{nm}>=0', f'metrics.{nm}', case, dict(value=a))
+        z = float(f(y, y.copy()))
+        if z != 0.0:
+            ctx.fail('predicate', f'{nm}(y,y)==0', f'metrics.{nm}', case, dict(value=z))
+    if float(M.smape(y, yh)) > 2.0:
+        ctx.fail('predicate', 'smape<=2', 'metrics.smape', case, dict(value=float(M.smape(y, yh))))
+    if float(M.r2(y, yh)) > 1.0:
+        ctx.fail('predicate', 'r2<=1', 'metrics.r2', case, dict(value=float(M.r2(y, yh))))
+    ctx.count(family, n=n, nontrivial_key=(y.tobytes(), yh.tobytes()) if n >= 2 and not np.array_equal(y, yh) else None,
+              sample=dict(y=y.tolist()[:8], y_hat=yh.tolist()[:8], smape=float(M.smape(y, yh))))
 
 
 @core.safe_case
@@ -154,8 +190,22 @@ def run(ctx):
         elif u < 0.18:
             x, fam = x * 2.0 ** 30, fam + '@xhuge'
         one(ctx, y, yh, x, fam)
+        if rng.random() < 0.35:
+            # signed vectors: opposite signs at some positions, a fitted line that crosses zero while the data do not, all-negative data
+            sy = np.array([rng.choice([1, 1, -1]) for _ in range(n)], float)
+            sh = np.array([rng.choice([1, 1, -1]) for _ in range(n)], float)
+            k = rng.random()
+            if k < 0.3:
+                sy[:] = 1.0
+            elif k < 0.4:
+                sy[:] = -1.0
+                sh[:] = -1.0
+            one_signed(ctx, y * sy, yh * sh, 'signed:' + fam)
 
 
 def replay(ctx, body):
     c = body['case']
+    if c.get('signed'):
+        one_signed(ctx, np.array(c['y'], float), np.array(c['y_hat'], float), 'replay')
+        return
     one(ctx, np.array(c['y'], float), np.array(c['y_hat'], float), np.array(c['x'], float), 'replay')
